@@ -16,6 +16,9 @@ def meta(ch, carrier, salt, method):
         return None if s is None else s.format(T=carrier)
     if ch == 'i':
         return IGN[salt % len(IGN)].format(T=carrier)
+    if ch == 'x':
+        pm = 'hash_poison' if carrier == 'Hash' else 'eq_poison'
+        return ['%s(ignore, method(%s))', '%s(method(%s), ignore)'][salt % 2] % (carrier, pm)
     return '%s(method(%s))' % (carrier, method) if salt % 2 else '%s(method = "%s")' % (carrier, method)
 
 
@@ -28,7 +31,7 @@ def build(shape, assign, cfg, ctx='alone'):
         for fi in range(f.n):
             ch = assign[vi][fi]
             salt += 1
-            t.append('I' if ch == 'i' else 'V')
+            t.append('I' if ch in 'ix' else 'V')
             own = meta(ch, 'Hash', salt + vi, 'hash_m')
             lines = place(own, 'Debug(ignore)', ctx)
             if cfg == 'HP':
@@ -36,7 +39,7 @@ def build(shape, assign, cfg, ctx='alone'):
                 if pe:
                     lines = lines + ['#[educe(%s)]' % pe] if salt % 2 else ['#[educe(%s)]' % pe] + lines
             a.append(lines)
-            d.append(['I(0)', 'I(1)'] if ch == 'i' else ['V(0)', 'V(1)', 'V(2)'])
+            d.append(['I(0)', 'I(1)'] if ch in 'ix' else ['V(0)', 'V(1)', 'V(2)'])
         tys.append(t)
         fattrs.append(a)
         doms.append(d)
@@ -51,7 +54,7 @@ def build(shape, assign, cfg, ctx='alone'):
     src += 'fn values() -> Vec<Ty> {\n    vec![\n%s    ]\n}\n' % ''.join('        %s,\n' % v for v in vals)
     arms = []
     for vi, f in enumerate(shape.variants):
-        binds = ['_' if assign[vi][i] == 'i' else 'a%d' % i for i in range(f.n)]
+        binds = ['_' if assign[vi][i] in 'ix' else 'a%d' % i for i in range(f.n)]
         ft, key = [], ['%du8' % vi]
         for i in range(f.n):
             ch = assign[vi][i]
@@ -78,7 +81,7 @@ def generate(tier):
     else:
         shapes = S.struct_shapes(4, with_empty=True) + S.enum_shapes(2, 3) + S.enum_shapes(3, 2, vmin=3)
     for sh in shapes:
-        for assign in assignments(sh, 'cim'):
+        for assign in assignments(sh, 'cimx' if sum(f.n for f in sh.variants) <= 2 else 'cim'):
             for cfg in ('H', 'HP'):
                 cases.append(build(sh, assign, cfg))
     for sh in S.struct_shapes(2) + S.enum_shapes(2, 1) + [S.Shape('enum', [S.Fields('t', 2), S.Fields('n', 2)]),
